@@ -13,6 +13,8 @@ def gen_vanilla(rng: random.Random, nq: int, n_blocks: int, use_load: bool = Fal
     """Returns (program, info). Program uses Q0/Q1 for gate operands (as the SDK does), R/C registers for control,
     M registers for outcomes, array @0 holds qubit ids (for the `load` variant)."""
     prog: List[list] = []
+    if rng.random() < 0.15:
+        prog.append(["set", [["C", 15], rng.choice([5, 0, -3])]])      # the program itself uses register C15
     # prelude: allocate and initialise qubits 0..nq-1, put them in some state
     for v in range(nq):
         prog += [["set", [["Q", 0], v]], ["qalloc", [["Q", 0]]], ["init", [["Q", 0]]]]
